@@ -568,6 +568,9 @@ class GroupBy:
         elif keep_chunked:
             # no pointers to unify, but we want to keep chunked so do nothing
             return
+        else:
+            # already unified by an earlier call which kept the chunks
+            chunks = [k.to_numpy() for k in self._group_ikey.chunks]
 
         if keep_chunked:
             self._group_ikey = pa.chunked_array(chunks)
